@@ -14,11 +14,11 @@ pub const PATHS: &[&str] = &[
 
 const LITS: &[&str] = &["1", "\"s\"", "true", "null", "[1, 2]", "{\"b\": 1}", "{\"b\": {\"c\": 2}}", "[]", "{}", "2.5"];
 
-pub const N_PRODUCTIONS: usize = 23;
+pub const N_PRODUCTIONS: usize = 25;
 pub const PRODUCTION_NAMES: [&str; N_PRODUCTIONS] = [
     "assign_path", "assign_var", "merge_assign", "infallible_path_var", "infallible_var_path", "del", "del_compact",
     "if_exists", "if_eq", "for_each_object", "for_each_array", "map_values", "filter", "unnest", "replace_root",
-    "merge_root", "abort", "return", "exists_stmt", "assign_index_deep", "chained_assign", "infallible_path_path", "root_functions",
+    "merge_root", "abort", "return", "exists_stmt", "assign_index_deep", "chained_assign", "infallible_path_path", "root_functions", "if_then_abort", "if_then_return",
 ];
 
 pub struct Gen<'a> {
@@ -31,7 +31,7 @@ pub struct Gen<'a> {
 
 impl<'a> Gen<'a> {
     pub fn new(rng: &'a mut Rng) -> Self {
-        let base: [u32; N_PRODUCTIONS] = [10, 5, 4, 4, 4, 6, 4, 5, 4, 4, 4, 3, 3, 4, 3, 3, 1, 1, 2, 3, 3, 4, 3];
+        let base: [u32; N_PRODUCTIONS] = [10, 5, 4, 4, 4, 6, 4, 5, 4, 4, 4, 3, 3, 4, 3, 3, 1, 1, 2, 3, 3, 4, 3, 2, 2];
         let mut weights = base;
         // swarm: disable a random half of the productions (never all)
         for w in weights.iter_mut() {
@@ -70,8 +70,11 @@ impl<'a> Gen<'a> {
     }
 
     fn rvalue(&mut self) -> String {
-        let n = if self.defined.is_empty() { 9 } else { 10 };
+        let n = if self.defined.is_empty() { 12 } else { 13 };
         match self.rng.below(n) {
+            9 => format!("({} || {})", self.path(), self.path()),
+            10 => format!("(exists({}) && {} == {})", self.npath(), self.path(), self.lit()),
+            11 => format!("(({} ?? {}) ?? {})", { let p = self.path(); format!("to_int({})", self.any(p)) }, { let p = self.path(); format!("to_int({})", self.any(p)) }, self.lit()),
             0 => self.lit().to_string(),
             1 => self.path().to_string(),
             2 => format!("({} ?? {})", { let p = self.path(); format!("to_string({})", self.any(p)) }, "\"n\""),
@@ -103,7 +106,7 @@ impl<'a> Gen<'a> {
         let mut w = self.weights;
         if depth >= 2 {
             // no further nesting
-            for i in [7usize, 8, 9, 10, 11, 12] {
+            for i in [7usize, 8, 9, 10, 11, 12, 23, 24] {
                 w[i] = 0;
             }
         }
@@ -207,6 +210,13 @@ impl<'a> Gen<'a> {
             21 => {
                 let p = self.path();
                 format!("{}, {} = to_int({})", self.wpath(), self.wpath(), self.any(p))
+            }
+            23 | 24 => {
+                // a branch that writes and then leaves the program: the writes before `abort` / `return` still happen
+                let p = self.npath();
+                let a = self.stmt(depth + 1, false);
+                let tail = if k == 23 { "abort".to_string() } else { format!("return {}", self.rvalue()) };
+                format!("if exists({p}) {{\n  {}\n  {tail}\n}}", a.replace('\n', "\n  "))
             }
             _ => {
                 // functions that take the whole event / metadata as a value
